@@ -64,6 +64,35 @@ def schema_respecting(doc):
             setattr(e, p, None)
 
 
+def optional_children_exercise(doc, r):
+    """unset the optional values of lights, contributors and samplers, save, then set them again one by one in a random
+    order with a save after each: every intermediate document must keep its children in schema order"""
+    from collada import light, material
+    objs = []
+    for l in doc.lights:
+        names = [a for a in ('constant_att', 'linear_att', 'quad_att', 'falloff_ang', 'falloff_exp') if hasattr(l, a)]
+        if names:
+            objs.append((l, names, lambda: 0.5))
+    for c in doc.assetInfo.contributors:
+        objs.append((c, ['author', 'authoring_tool', 'comments', 'copyright', 'source_data'], lambda: 'text'))
+    for e in doc.effects:
+        for p in e.params:
+            if isinstance(p, material.Sampler2D):
+                objs.append((p, ['minfilter', 'magfilter'], lambda: 'LINEAR'))
+    for o, names, val in objs:
+        for a in names:
+            setattr(o, a, None)
+    doc.save()
+    for o, names, val in objs:
+        order = list(names)
+        r.shuffle(order)
+        for a in order:
+            if r.random() < 0.8:
+                setattr(o, a, val())
+                doc.save()
+    return 'optional-children-exercise(%d objects)' % len(objs)
+
+
 def recount(data):
     """bookkeeping of a written document recounted from its data: returns list of problems"""
     root = ET.fromstring(data)
@@ -145,6 +174,8 @@ def build_case(kind, seed, nops):
             return None, hist
         if d:
             hist.append(d)
+    if seed % 3 == 0:
+        hist.append(optional_children_exercise(doc, random.Random('c04o/%s' % seed)))
     schema_respecting(doc)
     return doc, hist
 
